@@ -62,10 +62,22 @@ def plan(tier, seed):
 ORI = [("+", "+"), ("+", "-"), ("-", "+"), ("-", "-")]
 
 
+VIA_FILE = {"dir": None, "on": False}
+
+
 def build_gfa(nodes, links):
     """links: list of (a, ao, b, bo)"""
     from gaftools.gfa import GFA
 
+    if VIA_FILE["on"] and VIA_FILE["dir"]:
+        # the same graph loaded from a GFA file whose L lines come before its S lines
+        path = os.path.join(VIA_FILE["dir"], "viafile.gfa")
+        with open(path, "w") as f:
+            for a, ao, b, bo in links:
+                f.write(f"L\t{a}\t{ao}\t{b}\t{bo}\t0M\n")
+            for n in reversed(list(nodes)):
+                f.write(f"S\t{n}\t*\n")
+        return GFA(path)
     g = GFA()
     for n in nodes:
         g.add_node(n)
@@ -84,7 +96,7 @@ def model_adj(nodes, links):
 
 def check_decomposition(res, nodes, links, desc, oracle_cache=None):
     adj = model_adj(nodes, links)
-    case = {"nodes": list(nodes), "links": [list(l) for l in links]}
+    case = {"nodes": list(nodes), "links": [list(l) for l in links], "via_file": VIA_FILE["on"]}
     G = build_gfa(nodes, links)
     # components
     res.evaluations += 1
@@ -192,6 +204,11 @@ def graphs_part(res, spec, tier):
             links = [(a, ORI[k - 1][0], b2, ORI[k - 1][1]) for (a, b2), k in zip(pairs, assign) if k]
             res.count("orientation_labelled_graphs")
             check_decomposition(res, names, links, "orientation-labelled", cache)
+            VIA_FILE["on"] = True
+            try:
+                check_decomposition(res, names, links, "orientation-labelled, loaded from a file with L lines first", cache)
+            finally:
+                VIA_FILE["on"] = False
     if spec["shard"] == 0:
         res.sample({"graph": {"nodes": ["n0", "n1", "n2", "n3"], "links": labelled([("n0", "n1"), ("n1", "n2"), ("n1", "n3"), ("n2", "n3")], 1)}, "checked": "all_components, dfs from every start, biccs from every root"})
 
@@ -424,6 +441,7 @@ def bfs_part(res, spec, tier):
 
 def run_shard(spec, tier, scratch):
     res = fw.ShardResult()
+    VIA_FILE["dir"] = scratch
     if spec["part"] == "graphs":
         graphs_part(res, spec, tier)
     else:
@@ -463,5 +481,9 @@ def replay(case, scratch):
             if not invariants(res, G, nodes, links, hist, {}):
                 return res.failures
         return res.failures
-    check_decomposition(res, case["nodes"], [tuple(l) for l in case["links"]], "replay")
+    VIA_FILE["dir"], VIA_FILE["on"] = scratch, bool(case.get("via_file"))
+    try:
+        check_decomposition(res, case["nodes"], [tuple(l) for l in case["links"]], "replay")
+    finally:
+        VIA_FILE["on"] = False
     return res.failures
